@@ -539,6 +539,24 @@ def to_driver(e, tab):
     return ["on", to_driver(e[1], tab), e[2], [to_driver(x, tab) for x in e[3]]]
 
 
+def to_driver_let(e, tab):
+    if e[0] == "let":
+        return ["let", e[1], to_driver_let(e[2], tab)]
+    if e[0] == "ref":
+        return e
+    if e[0] in ("attr", "call"):
+        return to_driver(e, tab)
+    if e[0] == "alias":
+        return ["alias", to_driver_let(e[1], tab), e[2]]
+    if e[0] == "fields":
+        return ["fields", to_driver_let(e[1], tab), [to_driver_let(x, tab) for x in e[2]]]
+    return ["on", to_driver_let(e[1], tab), e[2], [to_driver_let(x, tab) for x in e[3]]]
+
+
+def strip_let(e):
+    return e      # expand_refs already removed let/ref
+
+
 # the collector witness (finding class F15-interface-uncollected)
 def collector_schema():
     sc = G.fixed_schema()
@@ -650,6 +668,26 @@ def prepare(ctx, rng, label, sc, gen, world, mclasses, present, hist_per):
         for cls, h in witnesses():
             hists.append({"ops": [{"kind": "query", "model": op, "driver": [to_driver(e, tab) for e in op]} for op in h],
                           "stream": "witness", "class": cls})
+        # objects built for an earlier operation re-used in a later, different one, under a parent whose
+        # argument has the same GraphQL name (C14_reuse_request; the variable names must be recomputed)
+        pid = At("PersonFields", "id")
+        X = C("PersonFields", "x", a=5)
+        F2 = Fs(C("PersonFields", "friend", since="t0"), C("PersonFields", "x", a=7))
+        reuse = [
+            [Fs(Q("person", id="1"), ["let", "w0", X], ["let", "w1", F2])],
+            [Fs(Q("p", a=1), ["ref", "w0"])],
+            [Fs(Q("person", id="2"), pid, ["ref", "w1"]), Fs(["alias", Q("p", a=2, a_0=3), "q"], ["ref", "w0"])],
+        ]
+        defs = {"w0": X, "w1": F2}
+        ops = []
+        for op in reuse:
+            drv = [to_driver_let(e, tab) for e in op]
+            ops.append({"kind": "query", "model": [strip_let(G.expand_refs(e, defs)) for e in op], "driver": drv,
+                        "driver_fresh": [to_driver_let(G.expand_refs(e, defs), tab) for e in op], "reused": True})
+        hists.append({"ops": ops, "stream": "witness", "class": "F15-reuse-later-operation"})
+        for k in (1, 2):      # each re-using operation also alone, from fresh objects
+            o = dict(ops[k]); o["driver"] = o["driver_fresh"]
+            hists.append({"ops": [o], "stream": "witness", "class": None})
     elif label == "collector":
         e = Fs(Q("me"), Fs(C("PersonFields", "pet"), At("AnimalInterface", "name")))
         hists.append({"ops": [{"kind": "query", "model": [e], "driver": [e]}], "stream": "witness",
@@ -660,22 +698,30 @@ def prepare(ctx, rng, label, sc, gen, world, mclasses, present, hist_per):
         for i in range(hist_per):
             edge = rng.random() < 0.3
             n_before = rng.choice([0, 0, 1, 1, 2, 3])
+            eg.reuse = (not edge) and n_before > 0 and rng.random() < 0.5
+            eg.pool, eg.pending, eg.defs, eg.used_now = [], [], {}, set()
             ops = []
             for _ in range(n_before + 1):
                 rc, rt, kind = rng.choice(roots) if rng.random() < 0.3 else roots[0]
                 depth = rng.choice([1, 2, 3, 3, 4])
                 eg.bad_used = False
                 fe = eg.operation(rc, rt, depth, edge)
-                ops.append({"kind": kind, "model": [m for m, _ in fe], "driver": [d for _, d in fe],
+                eg.end_operation()
+                drv = [d for _, d in fe]
+                ops.append({"kind": kind, "model": [m for m, _ in fe], "driver": drv,
+                            "driver_fresh": [G.expand_refs(d, eg.defs) for d in drv],
+                            "reused": any(G.has_ref(d) for d in drv),
                             "malformed": eg.bad_used})
-            hists.append({"ops": ops, "stream": "edge" if edge else "main", "class": None})
+            hists.append({"ops": ops, "stream": "reuse" if eg.reuse else "edge" if edge else "main", "class": None})
     # every multi-operation history is followed by its last operation alone (fresh import state)
     flat = []
     for h in hists:
         h["fresh_of"] = None
         flat.append(h)
         if len(h["ops"]) > 1:
-            flat.append({"ops": [h["ops"][-1]], "stream": "fresh", "class": None, "fresh_of": len(flat) - 1})
+            last = dict(h["ops"][-1])
+            last["driver"] = last.get("driver_fresh", last["driver"])
+            flat.append({"ops": [last], "stream": "fresh", "class": None, "fresh_of": len(flat) - 1})
     return {"label": label, "sc": sc, "gen": gen, "world": world, "tab": tab, "meta": flat,
             "hists": [h["ops"] for h in flat]}
 
@@ -713,6 +759,9 @@ def judge(ctx, run, j, o):
             depth = max(G.expr_depth(e) for e in op["model"])
             size = sum(G.expr_size(e) for e in op["model"])
             run.dist("stream", meta["stream"])
+            if op.get("reused"):
+                run.dist("reuse", "operation re-uses objects built for an earlier operation")
+                replay["builder_calls_with_object_reuse"] = [p["driver"] for p in hist[: oi + 1]]
             run.dist("expr_depth", str(depth))
             run.dist("top_level_fields", str(len(op["model"])))
             run.dist("history_position", str(oi))
